@@ -210,6 +210,12 @@ func (e *Expr) SQL() string {
 			return strings.ToUpper(e.Name) + "(*)"
 		}
 		return strings.ToUpper(e.Name) + "(" + sqlPath(e.Path) + ")"
+	case "tuple":
+		parts := make([]string, len(e.Items))
+		for i, x := range e.Items {
+			parts[i] = x.SQL()
+		}
+		return "(" + strings.Join(parts, ", ") + ")"
 	case "call":
 		parts := make([]string, len(e.Items))
 		for i, x := range e.Items {
@@ -428,6 +434,10 @@ func (e *Expr) Coq() string {
 			return "(EAgg " + coqAgg[strings.ToLower(e.Name)] + " None)"
 		}
 		return "(EAgg " + coqAgg[strings.ToLower(e.Name)] + " (Some " + coqPath(e.Path) + "))"
+	case "tuple":
+		// a value tuple used as a value has no term in the model: rendered as a call no model function answers, so
+		// the model reports out-of-model and only the observations made on the real result (plainness) count
+		return "(ECall \"\" \"tuple__\" " + coqExprList(e.Items) + ")"
 	case "call":
 		return "(ECall " + coqStr(strings.ToLower(e.Qual)) + " " + coqStr(strings.ToLower(e.Name)) + " " + coqExprList(e.Items) + ")"
 	}
